@@ -75,6 +75,13 @@ def fill_markdown(
     # Extract frontmatter before any processing
     frontmatter, content = split_frontmatter(markdown_text)
 
+    # An opening `---` that is never closed makes the whole text frontmatter: nothing is
+    # formatted, and only a missing final newline is added (so repeated runs are stable).
+    if frontmatter and frontmatter == markdown_text and not content:
+        lines = [line.strip() for line in frontmatter.replace("\r\n", "\n").split("\n")]
+        if [line for line in lines if line].count("---") < 2:
+            return frontmatter if frontmatter.endswith("\n") else frontmatter + "\n"
+
     # Only format the content part if there's frontmatter
     if frontmatter:
         markdown_text = content
